@@ -319,3 +319,41 @@ Proof.
   - intros b Hn. unfold marshal_float64. rewrite Hn.
     replace (f64_is_inf b) with false by (unfold f64_is_inf, f64_is_nan in *; lia). reflexivity.
 Qed.
+
+(* ---------- the float hypotheses are jointly satisfiable ----------
+   (non-vacuity of [defval_float_roundtrip]): a toy "strconv" that prints the
+   bit pattern in decimal and parses it back satisfies all five hypotheses. *)
+Definition toy_oracle : float_oracle :=
+  {| fo_fmt32 := fmt_dec; fo_fmt64 := fmt_dec;
+     fo_parse32 := fun s => match parse_uint10 32 s with Some v => FOk v | None => FSyntax end;
+     fo_parse64 := fun s => match parse_uint10 64 s with Some v => FOk v | None => FSyntax end |}.
+
+Lemma is_dig_cases b : is_dig b -> b2n b <> 105 /\ b2n b <> 110 /\ b2n b <> 45.
+Proof.
+  intros (d & Hd & ->). apply lt16_cases in Hd.
+  repeat (destruct Hd as [->|Hd]); try subst d; vm_compute; repeat split; discriminate.
+Qed.
+
+Lemma fmt_dec_not_special v : fmt_dec v <> s_inf /\ fmt_dec v <> s_ninf /\ fmt_dec v <> s_nan.
+Proof.
+  destruct (fmt_base_spec 10 v ltac:(lia)) as (_ & Hd & _). unfold fmt_dec.
+  repeat split; intros E; rewrite E in Hd; inversion Hd as [|? ? Hc _]; subst;
+    destruct (is_dig_cases _ Hc) as (H1 & H2 & H3); vm_compute in H1, H2, H3; congruence.
+Qed.
+
+Theorem toy_oracle_ok :
+  (forall b, finite32 b -> fo_parse32 toy_oracle (fo_fmt32 toy_oracle b) = FOk b) /\
+  (forall b, finite64 b -> fo_parse64 toy_oracle (fo_fmt64 toy_oracle b) = FOk b) /\
+  (forall b, finite32 b -> exists v, fo_parse64 toy_oracle (fo_fmt32 toy_oracle b) = FOk v) /\
+  (forall b, finite32 b -> fo_fmt32 toy_oracle b <> s_inf /\ fo_fmt32 toy_oracle b <> s_ninf /\ fo_fmt32 toy_oracle b <> s_nan) /\
+  (forall b, finite64 b -> fo_fmt64 toy_oracle b <> s_inf /\ fo_fmt64 toy_oracle b <> s_ninf /\ fo_fmt64 toy_oracle b <> s_nan).
+Proof.
+  cbn [toy_oracle fo_fmt32 fo_fmt64 fo_parse32 fo_parse64].
+  split; [|split; [|split; [|split]]].
+  - intros b [Hb _]. now rewrite parse_fmt_dec.
+  - intros b [Hb _]. now rewrite parse_fmt_dec.
+  - intros b [Hb _]. exists b. rewrite parse_fmt_dec; [reflexivity|].
+    eapply N.lt_le_trans; [exact Hb|]. apply N.pow_le_mono_r; lia.
+  - intros b _. apply fmt_dec_not_special.
+  - intros b _. apply fmt_dec_not_special.
+Qed.
